@@ -94,10 +94,27 @@ def r05a(ctx):
         return False
     e2 = edges_where(a, hash_eq_loop)
     ivar = idx_exprs[0] if idx_exprs else None
-    e3 = edges_where(a, lambda op, l, r: op == 'Ne' and ivar is not None and l == ivar and r[0] in ('len', 'call') and flow.mentions(r, lambda z: z[0] == 'param' and z[2] == 'unkeyed_query_hashes'))
-    # the index is this iteration's loop variable: it is defined inside the loop from the iterator
-    iv_ok = ivar is not None and any(sg(a.term(c).get('fn', '')).endswith('Iterator::next') and c in lp[1] and a.arg(c, 0) == ivar for c in a.calls())
-    ctx.check(iv_ok, 'R05a', fn, 'loop index', a.loc(lp[0]), 'the compared query position is the loop\'s own counter (%s)' % (flow.show(ivar) if ivar else '?'))
+    # the compared position is the loop's own counter: the payload of the loop's iterator, or a local that is only
+    # advanced by +1 inside the loop
+    iv_iter = ivar is not None and any(sg(a.term(c).get('fn', '')).endswith('Iterator::next') and c in lp[1] and a.arg(c, 0) == ivar for c in a.calls())
+    iv_cnt = False
+    if ivar is not None and ivar[0] == 'local' and not iv_iter:
+        inl = [d for d in a.flow.defs.get(ivar[1], []) if d[1] in lp[1]]
+        ups = [paths.additive_update(a, a.blocks[d[1]]['s'][d[2]]) for d in inl if d[0] == 'assign']
+        iv_cnt = bool(inl) and all(u is not None and u[1] == 1 and u[2] == ('const', 1, 'usize') for u in ups) and len(ups) == len(inl)
+    ctx.check(iv_iter or iv_cnt, 'R05a', fn, 'loop index', a.loc(lp[0]), 'the compared query position is the loop\'s own counter (%s)' % (flow.show(ivar) if ivar else '?'))
+    qlen = lambda z: z[0] in ('len', 'call') and flow.mentions(z, lambda y: y[0] == 'param' and y[2] == 'unkeyed_query_hashes')
+    e3 = edges_where(a, lambda op, l, r: ivar is not None and l == ivar and ((op == 'Ne' and qlen(r)) or (op == 'Lt' and flow.mentions(r, qlen))))
+    # the read of each further entry is bounded by the entries remaining in this xorb after the chunk offset
+    def bound(op, l, r):
+        if op not in ('Ne', 'Lt') or ivar is None:
+            return False
+        both = ('bin', 'Add', l, r)
+        return (flow.mentions(both, lambda z: z == ivar) and flow.mentions(both, lambda z: z[0] == 'field' and z[2] == 'num_entries' and a.root_call(z) is not None and sg(a.root_call(z)[1]).endswith('CASChunkSequenceHeader::deserialize'))
+                and flow.mentions(both, lambda z: z == ('param', 5, 'cas_chunk_offset')))
+    e4 = edges_where(a, bound)
+    ctx.check(in_iteration_guarded(a, lp, d2, e4), 'R05a', fn, 'xorb bound', a.loc(d2), 'each further entry is read only on an edge of a comparison relating the counter, the chunk offset and the xorb header\'s num_entries (the read cannot run past the xorb)',
+              'the extension loop reads an entry without a bound that accounts for the chunk offset within the xorb (counter, cas_chunk_offset and num_entries are not related): it can read past the xorb\'s end and answer with a range outside it')
     eff = paths.collect_effects(a, lp[1], lambda k: k[0] if len(k) == 1 else None)
     adds = [(b, e, ln) for b, es in eff.items() for (c, s, t, e, ln) in es if s == 1 and e[0] == 'field' and e[2] == 'unpacked_segment_bytes' and a.rooted_at(e[1], d2)]
     if ctx.check(len(adds) == 1, 'R05a', fn, 'byte add', '-', 'one accumulation of this iteration\'s chunk bytes in the loop'):
@@ -126,10 +143,12 @@ def r05a(ctx):
         ctx.check(okb, 'R05a', fn, 'ret.bytes', a.loc(b, si), 'returned unpacked_segment_bytes = first chunk\'s bytes + the per-iteration additions')
         cs = f.get('chunk_index_start')
         ce = f.get('chunk_index_end')
-        okc = cs == ('param', 5, 'cas_chunk_offset') and ce is not None and ce[0] == 'bin' and ce[1] in ('Add', 'AddO') and ce[2] == ('param', 5, 'cas_chunk_offset') and ce[3] == cnt
+        okc = cs == ('param', 5, 'cas_chunk_offset') and ce is not None and ce[0] == 'bin' and ce[1] in ('Add', 'AddO') and ce[2] == ('param', 5, 'cas_chunk_offset') and flow.eqv(ce[3], cnt)
         ctx.check(okc, 'R05a', fn, 'ret.range', a.loc(b, si), 'returned range = [cas_chunk_offset, cas_chunk_offset + n) with n the returned count')
         okn = cnt[0] == 'local'
-        if okn:
+        if okn and cnt == ivar and iv_cnt:
+            pass  # the returned count is the loop counter itself
+        elif okn:
             ds = [d for d in a.flow.defs.get(cnt[1], []) if d[0] == 'assign']
             vals = [a.flow.rvalue(d[3], 0) for d in ds]
             okn = all(v == ('const', 0, 'usize') or v == ivar for v in vals) and sum(1 for v in vals if v == ivar) >= 2
